@@ -1,6 +1,7 @@
 //! Verification harness for feather-build-rs (property-based testing / fuzzing).
 #![allow(clippy::type_complexity)]
 
+pub mod classfile;
 pub mod engine;
 pub mod mapmodel;
 pub mod props;
